@@ -178,6 +178,13 @@ def generate(seed, tier, enlarged=False):
                   'ups': [{'$branch': {'b': {'$branch': {'a': {'$dict': {'c': {'d': {'a': 1}}}}}}}},
                           {'$branch': {'b': {'$multi': [{'$branch': {'a': {'$dict': {'c': {'d': {'b': 2}}}}}},
                                                         {'$branch': {'a': {'$dict': {'c': {'e': 3}}}}}]}}}]})
+    # units normalisation when the value was installed (set_value / initial state) in another unit than the
+    # declared one (oracle only: magnitudes chosen so that the float arithmetic is exact)
+    for i in range(n // 30):
+        cases.append({'kind': 'unitsinit', 'declared': rng.choice(['g', 'mg']), 'init_kg': rng.randint(1, 9),
+                      'ups': [[rng.choice([125, 250, 500, 1000, 2000]), rng.choice(['declared', 'declared', 'kg'])]
+                              for _ in range(rng.randint(1, 4))],
+                      'updater': rng.choice(['accumulate', 'nonnegative_accumulate'])})
     for i in range(n):
         if i % 3 == 0:
             f = rng.choice(UPDATERS)
@@ -364,6 +371,18 @@ def run_impl(c):
             return {'ok': enc_val(r, np), 'update_mutated': u != u0}
         except Exception as e:
             return {'err': type(e).__name__}
+    if c['kind'] == 'unitsinit':
+        du = getattr(units, c['declared'])
+        store = Store({'m': {'_default': 0 * du, '_units': du, '_updater': c['updater']}})
+        store.apply_defaults()
+        store.set_value({'m': c['init_kg'] * units.kg})            # as an initial state does: no conversion
+        seen = []
+        for mag, u in c['ups']:
+            q = mag * (du if u == 'declared' else units.kg)
+            store.apply_update({'m': q})
+            v = store.get_path(('m',)).value
+            seen.append([str(v.units), float(v.to('mg').magnitude)])
+        return {'ok': 1, 'seen': seen}
     store = Store(dec_store(c['store'], np, units))
     mutated = False
     try:
@@ -535,7 +554,25 @@ def norm(v):
     return v
 
 
+def oracle_unitsinit(c, ob):
+    names = {'g': 'gram', 'mg': 'milligram'}
+    per = {'g': 1000.0, 'mg': 1.0}
+    total = c['init_kg'] * 1e6
+    for (mag, u), (unit, mg) in zip(c['ups'], ob.get('seen', [])):
+        total += mag * (per[c['declared']] if u == 'declared' else 1e6)
+        if unit != names[c['declared']]:
+            return [('a variable declared in %s, installed as %d kilogram, holds a quantity in %s after an update in %s'
+                     % (names[c['declared']], c['init_kg'], unit, 'its declared unit' if u == 'declared' else 'kilogram'),
+                     'units-not-normalised')]
+        if abs(mg - total) > 1e-6 * total:
+            return [('the variable holds %r mg, its initial value and updates add up to %r mg' % (mg, total),
+                     'wrong-result:units')]
+    return []
+
+
 def oracle(c, ob, rng):
+    if c['kind'] == 'unitsinit':
+        return oracle_unitsinit(c, ob) if 'ok' in ob else [('units stream raised: %s' % ob.get('err'), 'raises-in-domain:units')]
     msgs = []
     try:
         if c['kind'] == 'fun':
@@ -638,6 +675,8 @@ class R:
 
 
 def render(c, ob):
+    if c['kind'] == 'unitsinit':
+        return None           # oracle only
     r = R()
     if c['kind'] == 'fun':
         return '(UFun %s %s %s %s)' % (COQ_UPD[c['f']], r.val(c['v']), r.val(c['u']),
